@@ -146,11 +146,12 @@ of the runtime block, then re-parsing the written buffer returns the same `file_
 same `model_data` (the writer emits exactly the format's runtime block — each bone-map size only
 for its version — and the geometry writes never touch it).
 
-Full statement kept visible (not proved for edited models; tied by correspondence only —
-`edit` / `wbytes` cases):
+The whole-file statement for edited models
 
   theorem c07_edit_then_parse (a) (es) (a') (h : applyEdits a es = some a') (WF, Canonical for a, a') :
-      parse (write (edits (parse (encodeMdl a)))) reports `view a'` and `HeaderFlags.allOk`. -/
+      parse (write (edits (parse (encodeMdl a)))) reports `view a'` and `HeaderFlags.allOk`
+
+is proved below as `c07_edit_then_parse_partial` (see there for the exact side conditions). -/
 theorem c07_write_parse_headers_partial (m : MDL) (hv : isV5 m.fileHeader.version = true)
     (hok : modelDataOk m.fileHeader m.modelData = true) (hw : writesAfterHeader m = true)
     (buf : Bytes) (hb : writeToBuffer m = .ok buf) :
@@ -191,19 +192,23 @@ example : (parsedSample.map fun m => isV5 m.fileHeader.version &&
 
 /-! ## parse ∘ write ∘ edits ∘ parse (edited models) -/
 
-/-- **After any non-empty history of `replace_vertices` / `remove_shape_meshes` calls supplied
-consistently, the written file re-parses as exactly the new geometry.**
+/-- **After any non-empty history of `replace_vertices` / `remove_shape_meshes` /
+`add_shape_mesh` calls supplied consistently, the written file re-parses as exactly the new
+geometry, and its header is self-consistent.**
 
 `a` is the model in the file the session starts from (`WF`, `Canonical`); `es` the abstract edit
 history, `a' = applyEdits a es` its meaning (`Spec/MdlEdit.lean`); `ces = cedits a es` the concrete
-API calls — the vertices passed to `replace_vertices` are the specification's decoding
-(`verticesOf`) of the new canonical stream bytes under the mesh's declaration, exactly as the
-check's driver builds them.  Side conditions: `editsOk` (every `replace_vertices` keeps the strides
-of the mesh — the API cannot change them), the final model is canonical (`Canonical a'`: canonical
-encodings, every mesh starts at its first sub-mesh's offset), every LOD in use has a mesh
-(`usedNonempty a'`), and the model **as `update_headers` lays it out** (`relayout a'`: same
-geometry, index sections padded to the next multiple of 16 strictly above, see
-`Spec/MdlRelayout.lean`) is well-formed — in particular its file stays below 4 GiB.
+API calls — the vertices passed to `replace_vertices` / `add_shape_mesh` are the specification's
+decoding (`verticesOf`) of the new canonical stream bytes under the mesh's declaration, exactly as
+the check's driver builds them (`Proofs/MdlRep.lean`).  Side conditions, all decidable:
+`editsOk2` (`Proofs/MdlHistory2.lean`: new streams come with the strides of the mesh — the API
+cannot change them; for `add_shape_mesh` the mesh it extends is well-formed at that moment, the
+new records have one stride each, the `u16` vertex count does not wrap), the final model is
+canonical (`Canonical a'`: canonical encodings, every mesh starts at its first sub-mesh's offset —
+nothing is asked of the intermediate states), every LOD in use has a mesh (`usedNonempty a'`), and
+the model **as `update_headers` lays it out** (`relayout a'`: same geometry — `view_relayout` —,
+index sections padded to the next multiple of 16 strictly above, `Spec/MdlRelayout.lean`) is
+well-formed — in particular its file stays below 4 GiB.
 
 Conclusion: `from_existing (encodeMdl a)` returns a model `m0`, and for **every** outcome `mE` of
 the edit calls on `m0` that returns, `write_to_buffer mE` returns a buffer whose re-parse `m1`
@@ -215,18 +220,27 @@ the runtime block and pairwise disjoint, every section inside the file) is `allO
 sizes or history length; nothing about the intermediate states is assumed beyond that the calls
 return.
 
-`_partial`: (1) histories containing `add_shape_mesh` are not covered; (2) a LOD in use without
-meshes is excluded (`update_headers` gives it a 16-byte index section that `Spec.encodeMdl` cannot
-express); (3) that the edit calls return (no overflow panic in `update_headers`) is a hypothesis;
-(4) the classes of the recorded findings `c07.writer-unsupported-layout` /
-`c06.blendweights-byte4` are excluded through `Canonical` (`writable` pairs only), as in
-`c07_write_parse`.  Proof: `Proofs/MdlEditParse.lean` (abstraction relation `Rep` kept by every
-edit, `update_headers` characterised through `HeaderOK` + `StartsFromSubmesh`, identification with
-`encodeMdl (relayout a')` on the LODs in use, frame lemmas for the stale rows of unused LODs and the
-stale per-part views, then `c07_write_parse` / `c06_parse_encode_partial`). -/
+`_partial`: (1) a LOD in use without meshes is excluded (`update_headers` gives it a 16-byte index
+section that `Spec.encodeMdl` cannot express); (2) that the edit calls return (no panic of the
+overflow-checked arithmetic in `update_headers`, which depends on the magnitudes of the supplied
+sub-mesh offsets at intermediate states) is a hypothesis, not a conclusion; (3) the classes of the
+recorded findings `c07.writer-unsupported-layout` / `c06.blendweights-byte4` are excluded through
+`Canonical` (`writable` pairs only), exactly as in `c07_write_parse`.  The statement of the former
+comment (`c07_edit_then_parse`) with hypotheses on `a`, `a'` only is **false** for
+`add_shape_mesh` called between the `replace_vertices` calls of one re-layout (the code records
+the mesh's stale start index; witness `corpus/C07/sp-add-shape-noncontiguous.case`, confirmed
+against the real code): `Spec.applyEdit` now rejects such a call as not supplied consistently.
+
+Proof: `Proofs/MdlEditParse.lean` — abstraction relation `Rep` kept by every edit
+(`Proofs/MdlHistory*.lean`), `update_headers` characterised through `HeaderOK` +
+`StartsFromSubmesh` (`Proofs/MdlUpdate.lean`), identification of the in-memory tables with
+`modelData (relayout a')` on the LODs in use (`Proofs/MdlLaidOut.lean`, using
+`calculate_runtime_size` = encoded length, `Proofs/MdlRuntimeSize.lean`), frame lemmas for the
+stale rows of unused LODs and the stale per-part views (`Proofs/MdlFrame.lean`), the flags
+(`Proofs/MdlFlags.lean`), then `c07_write_parse` / `c06_parse_encode_partial`. -/
 theorem c07_edit_then_parse_partial (a : AbstractModel) (h : WF a = true) (hcan : Canonical a = true)
     (v0 : View) (hv0 : view a = some v0)
-    (es : List AEdit) (hne : es ≠ []) (hes : editsOk a es = true)
+    (es : List AEdit) (hne : es ≠ []) (hes : editsOk2 a es = true)
     (a' : AbstractModel) (ha' : applyEdits a es = some a')
     (ces : List Edit) (hces : cedits a es = some ces)
     (h' : WF (relayout a') = true) (hcan' : Canonical a' = true) (hne' : usedNonempty a' = true)
@@ -241,24 +255,33 @@ theorem c07_edit_then_parse_partial (a : AbstractModel) (h : WF a = true) (hcan 
     edit_then_parse a h hcan v0 hv0 es hne hes a' ha' ces hces h' hcan' hne' v hv mE hE
   exact ⟨buf, m1, h1, h2, h5, h3, h4, h6⟩
 
-/-- a two-edit history on `canonicalSample`: the mesh gets 3 new vertices (canonical records:
-Position / Normal Half4 with their 1.0 / 0.0 lanes, BiTangent, Color, 2 slack bytes), 6 indices,
-one sub-mesh `(0, 6)`; then `remove_shape_meshes` -/
+/-- `canonicalSample` with one (empty) shape, so that `add_shape_mesh` has something to extend -/
+def shapeSample : AbstractModel :=
+  { canonicalSample with shapes := [⟨[0x73], ⟨0, 0, 0⟩, ⟨0, 0, 0⟩⟩] }
+
+/-- a three-edit history on `shapeSample`: `remove_shape_meshes`; the mesh gets 3 new vertices
+(canonical records: Position / Normal Half4 with their 1.0 / 0.0 lanes, BiTangent, Color, 2 slack
+bytes), 6 indices, one sub-mesh `(0, 6)`; then `add_shape_mesh` with one shape value (base index 1)
+and its replacement vertex -/
 def sampleEdits : List AEdit :=
   let r0 : Bytes := [0x00, 0x3C, 0x00, 0xC0, 0x01, 0x00, 0x00, 0x3C,
                      0x00, 0x38, 0x00, 0x38, 0x00, 0xB8, 0x00, 0x00]
   let r1 : Bytes := [1, 128, 254, 255, 10, 20, 30, 40, 0, 0]
-  [.replace 0 0 3 [⟨16, r0 ++ (r0 ++ r0)⟩, ⟨10, r1 ++ (r1 ++ r1)⟩] [0, 1, 2, 2, 1, 0] [(0, 6)],
-   .removeShapes]
+  [.removeShapes,
+   .replace 0 0 3 [⟨16, r0 ++ (r0 ++ r0)⟩, ⟨10, r1 ++ (r1 ++ r1)⟩] [0, 1, 2, 2, 1, 0] [(0, 6)],
+   .addShape 0 0 0 0 [1] [⟨16, r0⟩, ⟨10, r1⟩]]
 
-/-- non-vacuity of `c07_edit_then_parse_partial`: every hypothesis holds on `canonicalSample` with
-`sampleEdits`, and the concrete calls return -/
+/-- non-vacuity of `c07_edit_then_parse_partial`: every hypothesis holds on `shapeSample` with
+`sampleEdits`, the concrete calls return, and the final view reports the added shape -/
 example :
-    (match view canonicalSample, applyEdits canonicalSample sampleEdits,
-        cedits canonicalSample sampleEdits with
+    (match view shapeSample, applyEdits shapeSample sampleEdits, cedits shapeSample sampleEdits with
      | some v0, some a', some ces =>
-       editsOk canonicalSample sampleEdits && WF (relayout a') && Canonical a' && usedNonempty a' &&
-         (view a').isSome && isOk (ces.foldlM Mdl.applyEdit (parsedOf canonicalSample v0))
+       WF shapeSample && Canonical shapeSample &&
+       editsOk2 shapeSample sampleEdits && WF (relayout a') && Canonical a' && usedNonempty a' &&
+         (match view a' with
+          | some v => v.lods.all (fun ps => ps.all (fun p => p.shapes.length == 1 && p.vertices.length == 4))
+          | none => false) &&
+         isOk (ces.foldlM Mdl.applyEdit (parsedOf shapeSample v0))
      | _, _, _ => false) = true := by
   decide +kernel
 
